@@ -391,6 +391,15 @@ func vfCredShapes() []vfCredShape {
 		vclock.Advance(2 * time.Second)
 		return vfTruth{Kind: "kmcert"}
 	}})
+	// an IP-restricted certificate whose identity also holds a role
+	cert("rolecert-outside-named-automation-admin", func(w *vfWorld) (*x509.Certificate, string, vfTruth) {
+		l := w.vfIssueRoleCert("autoadmin", vfKeys.userEC.Public(), vfRoleCIDR)
+		return l, vfOutsideAddr, vfTruth{Kind: "ipcert"}
+	})
+	cert("rolecert-outside-named-admin", func(w *vfWorld) (*x509.Certificate, string, vfTruth) {
+		l := w.vfIssueRoleCert("admin", vfKeys.userEC.Public(), vfRoleCIDR)
+		return l, vfOutsideAddr, vfTruth{Kind: "ipcert"}
+	})
 	cert("rolecert-outside-named-alice", func(w *vfWorld) (*x509.Certificate, string, vfTruth) {
 		l := w.vfIssueRoleCert(target, vfKeys.userEC.Public(), vfRoleCIDR)
 		return l, vfOutsideAddr, vfTruth{Kind: "ipcert"}
